@@ -16,7 +16,7 @@ import engine_env as env
 PROPS = {
     "C02": {
         "controls": ["PAN-1", "PAN-3", "ERR-1", "PAN-7"],
-        "rules": [("PAN-1", pan.pan1), ("PAN-2", pan.pan2), ("PAN-3", pan.pan3), ("PAN-4", pan.pan4), ("PAN-5", pan.pan5), ("PAN-6", pan.pan6), ("PAN-7", pan.pan7), ("PAN-8", pan.pan8), ("PAN-9", pan.pan9), ("ERR-1", err.err1)],
+        "rules": [("PAN-1", pan.pan1), ("PAN-2", pan.pan2), ("PAN-3", pan.pan3), ("PAN-4", pan.pan4), ("PAN-5", pan.pan5), ("PAN-6", pan.pan6), ("PAN-7", pan.pan7), ("PAN-8", pan.pan8), ("PAN-9", pan.pan9), ("PAN-10", pan.pan10), ("ERR-1", err.err1)],
         "explanation": "Decides four panic mechanisms whose presence is visible in the shape of the code (each a necessary condition of C02), not termination or "
                        "value-dependent panics. PAN-1: forward liveness of every RefCell guard on MIR plus interprocedural borrow summaries (cells = SubRule fields / "
                        "&RefCell parameters mapped through call sites): no borrow, and no call that may borrow, of a cell while a conflicting guard on it is live. "
@@ -24,7 +24,7 @@ PROPS = {
                        "producer table). PAN-3/PAN-4: a may-analysis of the parsers' HIR gives, per container (Input, Output, Env, Set, Structure, Optional; "
                        "(de)romaniser sides), the element kinds the grammar can put there; a tag analysis of the interpreter gives the containers whose elements reach "
                        "each match with an unreachable!/unimplemented! arm; the intersection must be empty (EmptySet/Metathesis discharged by four checked rule-type "
-                       "conditions). PAN-5: the cursor written back to the scan loop through next_pos is dominated by SegPos::increment on that cursor (deletion and substitution). PAN-6: lexer/parser alphabet agreement: every modifier value Lexer::get_feature / AliasLexer::get_feature can put into a Feature token (char literals, `matches!` ranges and ascii classes of the gate, and '-'+class) is listed by an arm of the corresponding curr_token_to_modifier, whose default arm is unreachable!(). PAN-7: no str/String anywhere in lib or bin is range-sliced at an offset that is not a byte offset of that same string (zero slices on the pinned tree; the positive control keeps the rule alive). PAN-8: functions that index a container with a `usize` parameter they never compare with anything are summarised (to a fixed point through calls); at every call site that passes them a cursor which is advanced by arithmetic inside a loop, every path from an advance to the call passes a comparison of that cursor (Word::render's `j` and the alias matchers). PAN-9 (progress of the insertion loop, MIR): in SubRule::insert every path through one iteration of the loop over the output elements — from the `Some(state)` edge back to the loop head — passes an edit of the word or an advance of the cursor; an iteration that does neither leaves (word, cursor) unchanged and `transform`'s insertion loop finds the same insertion point forever. ERR-1: no formatter call resolves to an unreachable!() stub.",
+                       "conditions). PAN-5: the cursor written back to the scan loop through next_pos is dominated by SegPos::increment on that cursor (deletion and substitution). PAN-6: lexer/parser alphabet agreement: every modifier value Lexer::get_feature / AliasLexer::get_feature can put into a Feature token (char literals, `matches!` ranges and ascii classes of the gate, and '-'+class) is listed by an arm of the corresponding curr_token_to_modifier, whose default arm is unreachable!(). PAN-7: no str/String anywhere in lib or bin is range-sliced at an offset that is not a byte offset of that same string (zero slices on the pinned tree; the positive control keeps the rule alive). PAN-8: functions that index a container with a `usize` parameter they never compare with anything are summarised (to a fixed point through calls); at every call site that passes them a cursor which is advanced by arithmetic inside a loop, every path from an advance to the call passes a comparison of that cursor (Word::render's `j` and the alias matchers). PAN-9 (progress of the insertion loop, MIR): in SubRule::insert every path through one iteration of the loop over the output elements — from the `Some(state)` edge back to the loop head — passes an edit of the word or an advance of the cursor; an iteration that does neither leaves (word, cursor) unchanged and `transform`'s insertion loop finds the same insertion point forever. PAN-10 (no empty term, MIR): every push onto a Vec<Vec<Item>> term list (Parser::get_input / get_output) pushes a non-empty `vec![..]` literal or a local that cannot reach the push once its own `is_empty()` test answered true (repeated tests of the same local are correlated; a new assignment of the local ends the walk): Rule::split_into_subrules and the interpreter read `term[0]`. ERR-1: no formatter call resolves to an unreachable!() stub.",
         "does_not_decide": "termination in general (e.g. `$ > $` spins although the cursor is advanced); index / slice / arithmetic / Option::unwrap panics that depend on cursor values (e.g. `r...l > l r r`); stack depth of the recursive matcher.",
         "assumptions": ["all SubRule methods are invoked on the same SubRule object (cells named by field)"],
     },
@@ -184,12 +184,12 @@ PROPS = {
     },
     "C17": {
         "controls": ["ERR-1", "PAN-7"],
-        "rules": [("ERR-1", err.err1), ("ERR-2", err.err2), ("ERR-3", err.err3), ("ERR-4", err.err4), ("PAN-7", pan.pan7)],
+        "rules": [("ERR-1", err.err1), ("ERR-2", err.err2), ("ERR-3", err.err3), ("ERR-4", err.err4), ("ERR-5", err.err5), ("PAN-7", pan.pan7), ("PAN-10", pan.pan10)],
         "explanation": "PAN-7: formatting an error never slices a string at a character column (no str range-slice by a foreign offset in lib or bin). ERR-3 (ii-b): the characters handed to Lexer::new / AliasLexer::new are `<enumerated line>.chars().collect()` untransformed, so columns refer to the text the formatter prints. Decides the dispatch, payload and index-provenance clauses of C17: no call of an ASCAError formatter resolves to an impl whose "
                        "body is a bare unreachable!() (lib and CLI dispatchers cover all six Error variants); every variant of the six error enums carries a "
                        "location payload; the (group,line)/(kind,line) values handed to the lexers and parsers are the enumerate indices of exactly the slices "
                        "the formatters later index (rules[group].rule[line], into[line]/from[line]); every Position/Token/raw (group,line,pos) error is built from "
-                       "self.group/self.line/self.kind in the slot the formatter reads under that name; a parsed item's span end is read from the last consumed token (token_list[self.pos - 1]), never from the look-ahead token (ERR-4).",
+                       "self.group/self.line/self.kind in the slot the formatter reads under that name; a parsed item's span end is read from the last consumed token (token_list[self.pos - 1]), never from the look-ahead token (ERR-4). ERR-5 (the formatter cannot panic on its payload): every expect()/unwrap() reachable from an ASCAError formatter is first()/last() of a variant payload -- and then every constructor site of that variant passes a vector that is tested non-empty on the path to it (`!x.is_empty()` conjunct or early return), or is the result of a producer that ends in `if v.is_empty() { return Err } Ok(v)` -- or a min/max/next pick over a constant non-empty table that no filter narrows. PAN-10 supplies the non-emptiness of the terms inside Rule.input / Rule.output.",
         "does_not_decide": "that the caret span lies inside the line (unsigned `end - start`, `pos2 - pos1 - 1`, token-index vs column mixing are arithmetic on run-time positions).",
         "assumptions": ["formatters keep binding the raw payload fields under the names group/line/kind"],
     },
